@@ -136,6 +136,9 @@ def check(run):
                   f"slot = {ir.show_nl(replaces[0].index)}")
     run.check(n_accept >= 1, "FORMULA", "G.accept-exists", f"{s.path}:{s.fn.lineno}", fq, "no accept path",
               "no path of update replaces a slot under `U <= p` at capacity", f"{n_accept} accept path(s)")
+    # fill phase / replacement typestate of this class (C07 clauses)
+    from . import c06, c07
+    c07._storage(c06.FilterRun(run, {"COUNT", "PARALLEL"}, {"COUNT": "FORMULA", "PARALLEL": "FORMULA"}), prog, cls, False)
     # ---- AGREE: TreeStorage relies on p >= 1 ---------------------------------------------------
     ts = prog.find_class("TreeStorage")
     run.need(ts is not None, "anchor class TreeStorage vanished")
